@@ -37,6 +37,7 @@ const (
 	Uniform Strategy = iota
 	PCT
 	RoundRobin
+	Systematic // bounded-preemption DFS: decisions come from a prefix, then always alternative 0
 )
 
 type Sched struct {
@@ -59,6 +60,11 @@ type Sched struct {
 	Sites    map[string]int
 	running  int32
 	Diverged bool // replay trace did not fit
+	// systematic exploration (Strat == Systematic)
+	prefix     []int32 // forced decisions; beyond it every decision is alternative 0
+	Ns         []int32 // number of alternatives that existed at each recorded decision
+	Budget     int     // remaining pre-emptions (switching away from a thread that could continue)
+	SpurBudget int     // remaining spurious cond wake-ups
 }
 
 func New(seed int64) *Sched {
@@ -82,11 +88,60 @@ func (s *Sched) SetPCT(d, k int) {
 	}
 }
 
+// NewSystematic runs one schedule of a bounded-preemption depth-first enumeration: the first len(prefix)
+// decisions are forced, every later decision takes alternative 0 (continue the running thread when it can
+// continue, else the runnable thread with the lowest id; Signal wakes the oldest waiter; no spurious wake-up).
+// A pre-emption costs one unit of bound, a spurious wake-up one unit of spur. NextPrefix yields the
+// successor in DFS order, so iterating until it returns nil visits EVERY schedule within the bounds once.
+func NewSystematic(prefix []int32, bound, spur int) *Sched {
+	s := New(0)
+	s.Strat = Systematic
+	s.prefix = prefix
+	s.Budget = bound
+	s.SpurBudget = spur
+	return s
+}
+
+// NextPrefix returns the decision prefix of the next schedule in DFS order (nil: enumeration complete).
+func (s *Sched) NextPrefix() []int32 {
+	for i := len(s.Trace) - 1; i >= 0; i-- {
+		if s.Trace[i]+1 < s.Ns[i] {
+			p := append([]int32(nil), s.Trace[:i]...)
+			return append(p, s.Trace[i]+1)
+		}
+	}
+	return nil
+}
+
+// SysBound >= 0 puts the harness programs into systematic mode (see NewSystematic); workload sizes are capped with Cap.
+var SysBound = -1
+
+// Cap limits a workload dimension in systematic mode (small workloads, every schedule within the bound).
+func Cap(n, max int) int {
+	if SysBound >= 0 && n > max {
+		return max
+	}
+	return n
+}
+
 var S *Sched // current scheduler (one run at a time per process)
 
 // choose returns a decision in [0,n): from the replay trace if present, else from the PRNG.
 func (s *Sched) choose(n int) int {
 	var v int
+	if s.Strat == Systematic {
+		if s.rpos < len(s.prefix) {
+			v = int(s.prefix[s.rpos])
+			if v >= n {
+				s.Diverged = true
+				v = 0
+			}
+		}
+		s.rpos++
+		s.Trace = append(s.Trace, int32(v))
+		s.Ns = append(s.Ns, int32(n))
+		return v
+	}
 	if s.replay != nil {
 		if s.rpos < len(s.replay) && int(s.replay[s.rpos]) < n {
 			v = int(s.replay[s.rpos])
@@ -151,7 +206,23 @@ func (s *Sched) runnable() []*T {
 // it must never re-read s.cur after the wake token has been sent.
 func (s *Sched) pick(from *T) *T {
 	rs := s.runnable()
-	if s.Spurious {
+	if s.Strat == Systematic && s.SpurBudget > 0 {
+		var cw []*T
+		for _, t := range s.Ts {
+			if t.St == BlockedCond {
+				cw = append(cw, t)
+			}
+		}
+		if len(cw) > 0 {
+			if c := s.choose(1 + len(cw)); c > 0 {
+				t := cw[c-1]
+				t.on.(*Cond).remove(t)
+				t.St = Runnable
+				s.SpurBudget--
+				rs = s.runnable()
+			}
+		}
+	} else if s.Spurious {
 		var cw []*T
 		for _, t := range s.Ts {
 			if t.St == BlockedCond {
@@ -200,6 +271,27 @@ func (s *Sched) pick(from *T) *T {
 	}
 	var n *T
 	switch s.Strat {
+	case Systematic:
+		if from != nil && from.St == Runnable {
+			n = from
+			if s.Budget > 0 && len(rs) > 1 {
+				order := []*T{from}
+				for _, t := range rs {
+					if t != from {
+						order = append(order, t)
+					}
+				}
+				c := s.choose(len(order))
+				if c > 0 {
+					s.Budget--
+				}
+				n = order[c]
+			}
+		} else if len(rs) == 1 {
+			n = rs[0]
+		} else {
+			n = rs[s.choose(len(rs))]
+		}
 	case PCT:
 		if s.pctChg[s.Steps] && from != nil {
 			from.prio = s.Steps // lower than all initial priorities
